@@ -12,7 +12,10 @@ import (
 	"strconv"
 	"strings"
 
+	"encoding/json"
+
 	"github.com/opencontainers/go-digest"
+	"github.com/opencontainers/image-spec/specs-go"
 	ocispec "github.com/opencontainers/image-spec/specs-go/v1"
 	"oras.land/oras-go/v2/content"
 	"oras.land/oras-go/v2/errdef"
@@ -34,6 +37,9 @@ type regModel struct {
 	digestHdr  bool
 	ranges     bool
 	corrupt    int // which single-field corruption to apply to blob GET responses (0 = none)
+	refAPI     bool // Referrers API supported
+	yield      bool // yield inside every exchange so that cooperative schedules interleave exchanges
+	failNext   string // fail the next request whose "METHOD path-prefix" matches (one injected failure)
 	badRequest string
 	log        []string
 }
@@ -55,6 +61,9 @@ func (m *regModel) status(req *http.Request, code int, body []byte) *http.Respon
 }
 
 func (m *regModel) Do(req *http.Request) (*http.Response, error) {
+	if m.yield {
+		verifrt.Yield()
+	}
 	m.log = append(m.log, req.Method+" "+req.URL.Path)
 	if req.URL.Scheme != "https" || req.URL.Host != "r.io" {
 		return m.reject(req, "wrong scheme or host")
@@ -71,6 +80,8 @@ func (m *regModel) Do(req *http.Request) (*http.Response, error) {
 		return m.blob(req, rest[len("blobs/"):])
 	case strings.HasPrefix(rest, "manifests/"):
 		return m.manifest(req, rest[len("manifests/"):])
+	case strings.HasPrefix(rest, "referrers/"):
+		return m.referrers(req, rest[len("referrers/"):])
 	}
 	return m.reject(req, "unknown endpoint")
 }
@@ -237,6 +248,12 @@ func (m *regModel) manifest(req *http.Request, ref string) (*http.Response, erro
 		if m.digestHdr {
 			resp.Header.Set("Docker-Content-Digest", d)
 		}
+		if m.refAPI {
+			var man ocispec.Manifest
+			if json.Unmarshal(body, &man) == nil && man.Subject != nil {
+				resp.Header.Set("OCI-Subject", string(man.Subject.Digest))
+			}
+		}
 		return resp, nil
 	case http.MethodDelete:
 		if !isDigest {
@@ -254,6 +271,49 @@ func (m *regModel) manifest(req *http.Request, ref string) (*http.Response, erro
 		return m.status(req, http.StatusAccepted, nil), nil
 	}
 	return m.reject(req, "method not allowed on a manifest")
+}
+
+// referrers: the Referrers API (when supported): an index of the stored manifests whose subject is ref.
+func (m *regModel) referrers(req *http.Request, ref string) (*http.Response, error) {
+	if req.Method != http.MethodGet || !validDigest(ref) {
+		return m.reject(req, "referrers request must be GET by digest")
+	}
+	if !m.refAPI {
+		return m.status(req, http.StatusNotFound, nil), nil
+	}
+	var descs []ocispec.Descriptor
+	var keys []string
+	for d := range m.manifests {
+		keys = append(keys, d)
+	}
+	sortStringsC13(keys)
+	for _, d := range keys {
+		var man ocispec.Manifest
+		if json.Unmarshal(m.manifests[d], &man) != nil || man.Subject == nil || string(man.Subject.Digest) != ref {
+			continue
+		}
+		at := man.ArtifactType
+		if at == "" {
+			at = man.Config.MediaType
+		}
+		descs = append(descs, ocispec.Descriptor{MediaType: m.mediaTypes[d], Digest: digest.Digest(d), Size: int64(len(m.manifests[d])), ArtifactType: at, Annotations: man.Annotations})
+	}
+	idx := ocispec.Index{Versioned: specs.Versioned{SchemaVersion: 2}, MediaType: ocispec.MediaTypeImageIndex, Manifests: descs}
+	if idx.Manifests == nil {
+		idx.Manifests = []ocispec.Descriptor{}
+	}
+	body, _ := json.Marshal(idx)
+	resp := m.status(req, http.StatusOK, body)
+	resp.Header.Set("Content-Type", ocispec.MediaTypeImageIndex)
+	return resp, nil
+}
+
+func sortStringsC13(s []string) {
+	for i := 1; i < len(s); i++ {
+		for k := i; k > 0 && s[k] < s[k-1]; k-- {
+			s[k], s[k-1] = s[k-1], s[k]
+		}
+	}
 }
 
 func isTagShape(s string) bool {
